@@ -274,6 +274,10 @@ func c09LessTable(c *Ctx, p *Prog, lessFn *ssa.Function, idxF *types.Var, R stri
 						decides = true
 					}
 				}
+				if strings.Contains(k, "opaque:phi:") && !decides {
+					c.Bad(R, "comparison:carried-state", site, "a step of the comparison consults "+truncate(k, 120)+", a value carried over from the fields compared before: in a lexicographic order the first field that separates two keys decides on the spot (by the field's comparator, or by byte order when the comparator cannot separate them); remembering a tie and resolving it after later fields gives an order that is total but not the documented one")
+					return
+				}
 				if decides {
 					c.Bad(R, "comparison:extra-decision", site, "the comparison of two keys can be decided on a path that depends on "+truncate(k, 140)+", bypassing the field comparator and the byte-order fallback: for first-observation fields two distinct values can then compare as equal both ways (a value never recorded has rank 0, like the first recorded one), so the order is not total and the sorted result depends on the input arrangement")
 				} else {
@@ -547,6 +551,35 @@ func nameOf(f *types.Func) string {
 }
 
 func c09Comparators(c *Ctx, p *Prog) {
+
+	// numbers before non-numbers needs the number parser's verdict: wherever benchproc hands text to strconv's float
+	// or integer parser on the way to a comparator, the error result is read (compared with nil or returned)
+	nParse := 0
+	for _, fn := range p.Funcs("benchproc") {
+		eachInstr(fn, func(_ *ssa.BasicBlock, in ssa.Instruction) {
+			call, ok := in.(*ssa.Call)
+			if !ok {
+				return
+			}
+			co := calleeObj(&call.Call)
+			if co == nil || co.Pkg() == nil || co.Pkg().Path() != "strconv" || !strings.HasPrefix(co.Name(), "Parse") {
+				return
+			}
+			nParse++
+			read := false
+			for _, r := range *call.Referrers() {
+				if ex, ok := r.(*ssa.Extract); ok && ex.Index == 1 && ex.Referrers() != nil {
+					for _, r2 := range *ex.Referrers() {
+						if _, isDbg := r2.(*ssa.DebugRef); !isDbg {
+							read = true
+						}
+					}
+				}
+			}
+			c.Check(read, "C09/R3", fmt.Sprintf("%s:parse-verdict#%d", fnName(fn), nParse), p.pos(call.Pos()), "the parser's error is read",
+				"the error of "+co.Name()+" is discarded: text the parser rejects (1.2.3, pkg.Func) then counts as the number it happened to return (0), so it sorts among the numbers — before real numbers — instead of after them all")
+		})
+	}
 	const R = "C09/R3"
 	// functions stored in a package-level map[string]func(a,b string) int
 	found := map[string]*ssa.Function{}
@@ -751,6 +784,74 @@ func c09FlatCache(c *Ctx, p *Prog, flatF, onceF *types.Var) {
 		}
 	}
 	c.Floor(R, "writes to the flattened-field cache", n, 2)
+	// the list FlattenedFields hands out IS the cache: whoever receives it may read it only. No function of the
+	// package appends onto it (or onto a reslice of it: fields[:0] reuses its backing array), stores into its
+	// elements, copies into it or sorts it.
+	nUse := 0
+	for _, fn := range p.Funcs("benchproc") {
+		tainted := map[ssa.Value]bool{}
+		eachInstr(fn, func(_ *ssa.BasicBlock, in ssa.Instruction) {
+			if call, ok := in.(*ssa.Call); ok && objIs(calleeObj(&call.Call), bprocPkg, "Projection", "FlattenedFields") {
+				tainted[call] = true
+			}
+		})
+		if len(tainted) == 0 || passedToOnceDo(fn) {
+			continue
+		}
+		for changed := true; changed; {
+			changed = false
+			eachInstr(fn, func(_ *ssa.BasicBlock, in ssa.Instruction) {
+				v, ok := in.(ssa.Value)
+				if !ok || tainted[v] {
+					return
+				}
+				switch x := in.(type) {
+				case *ssa.Slice:
+					if tainted[x.X] {
+						tainted[v], changed = true, true
+					}
+				case *ssa.Phi:
+					for _, e := range x.Edges {
+						if tainted[e] {
+							tainted[v], changed = true, true
+						}
+					}
+				case *ssa.ChangeType:
+					if tainted[x.X] {
+						tainted[v], changed = true, true
+					}
+				}
+			})
+		}
+		eachInstr(fn, func(_ *ssa.BasicBlock, in ssa.Instruction) {
+			what := ""
+			switch x := in.(type) {
+			case *ssa.Call:
+				if bi, ok := x.Call.Value.(*ssa.Builtin); ok {
+					if (bi.Name() == "append" || bi.Name() == "copy") && tainted[x.Call.Args[0]] {
+						what = bi.Name() + "s onto"
+					}
+				} else if len(x.Call.Args) > 0 && isSortCallShallow(&x.Call) {
+					a := x.Call.Args[0]
+					if mi, ok := a.(*ssa.MakeInterface); ok {
+						a = mi.X
+					}
+					if tainted[a] {
+						what = "sorts"
+					}
+				}
+			case *ssa.Store:
+				if ia, ok := x.Addr.(*ssa.IndexAddr); ok && tainted[ia.X] {
+					what = "stores into"
+				}
+			}
+			if what != "" {
+				nUse++
+				c.Bad(R, fmt.Sprintf("%s:writes-borrowed-field-list#%d", fnName(fn), nUse), p.pos(in.Pos()), "the function "+what+" the list it got from FlattenedFields (or a reslice of it, which shares its backing array): that list is the projection's cache of comparison fields, so the next comparison of two keys walks a corrupted field list — fields are skipped or compared twice and the order is no longer total")
+			}
+		})
+	}
+	c.OK(R, "borrowed-field-list:read-only", "", "no function writes through the list FlattenedFields returns")
 }
 
 // passedToOnceDo: fn or one of its enclosing closures is the argument of (*sync.Once).Do.
